@@ -133,7 +133,8 @@ class Device(object):
                 route = table
             kw["UCMM_class"] = UCMM
         elif pers is not None and pers["k"] != "any":
-            rp = False if pers["k"] == "simple" else route_py(pers["segs"])
+            # a simple (non-routing) device is configured with any false value: False (--simple), an empty list (--route-path '[]'), 0
+            rp = {"zero": 0, "empty": []}.get(pers.get("form"), False) if pers["k"] == "simple" else route_py(pers["segs"])
 
             class UCMM(ucmm_mod.UCMM):          # as main() does for --route-path / --simple
                 route_path = rp
